@@ -4,10 +4,33 @@ CFG = {
     "lean_modules": ["GeomV.C06.Proofs"],
     "exe": "geomv_c06",
     "go_cmd": "c06",
+    "lean_dirs": ["C06", "C17"],
     "stages": ["go:gen", "go:impl", "lean:judge"],
-    "theorems": [],
-    "trusted_base": [],
-    "assumptions": [],
-    "rule": "",
+    "theorems": [T + n for n in ["C06_roundtrip", "C06_shape", "C06_errors", "C06_guard_exact", "C06_encode_total"]],
+    "trusted_base": [
+        "Lean 4.33.0 kernel; axioms of every theorem printed by #print axioms must be within {propext, Classical.choice, Quot.sound}",
+        "model lean/GeomV/C06/Model.lean is tied to /repo/encoding/geojson by the correspondence run on every check: ToGeoJSON's typed slices, "
+        "Encode's bytes (parsed by the driver's own JSON parser and compared as a tree, key order included), Decode(Encode g), Decode of "
+        "generator-written documents and FromGeoJSON on generic trees, all compared exactly (bit patterns, error kinds)",
+        "encoding/json number text: Marshal writes for a finite float64 a decimal that ParseFloat reads back to the same bits (stdlib contract); "
+        "measured on every encoded coordinate by the driver's exact decimal->binary64 rounding (lean/GeomV/C17/Dec.lean), which is itself "
+        "cross-validated against strconv.ParseFloat by the C17 check",
+        "encoding/json object decoding as modelled in `unmarshal` (case-insensitive field match incl. U+017F/U+212A, last duplicate wins, null is a "
+        "no-op for string fields, unknown members skipped): exercised by generated documents",
+        "the reading of RFC 7946 section 3.1 into lean/GeomV/C06/Spec.lean",
+        "harness/cmd/c06 + lean driver + lib/vcheck.py transport inputs faithfully",
+    ],
+    "assumptions": ["nil slices and empty slices are not distinguished (Encode writes [] for both: pointsCoordinates uses make)",
+                    "the nil interface value is outside the property (ToGeoJSON(nil) panics in reflect.TypeOf(nil).String())"],
+    "rule": "fixed corpus (each type, later-empty members, first-empty members, unsupported, non-finite, exponent boundaries 1e21/1e-6 of "
+            "encoding/json, -0, subnormals, 17-digit values, integers above 2^53) + generated geometries of the six types (member counts "
+            "{1,2,3,5}, occasionally 120 vertices; 50% with later members possibly empty; 5% first member empty; 5% one non-finite coordinate; "
+            "5% GeometryCollection/*Bounds), each giving a ToGeoJSON, an Encode and a Decode(Encode) case; plus generator-written JSON documents "
+            "(key order/case/escapes, duplicates, foreign members, white space, alternative number spellings, perturbed nesting/arity) decoded "
+            "at text level (Decode) and tree level (FromGeoJSON). distinct = distinct input line; non-trivial = verdict class not 'skipped'",
     "timeout": {"quick": 600, "thorough": 3000},
+    "explanation": "SPEC verdicts: the bytes Encode returns are parsed by the driver's own RFC 8259 parser (numbers converted by exact "
+                   "round-to-nearest-even) and must be read back to the input geometry bit-for-bit by the independent RFC 7946 reader "
+                   "(exactly the members type/coordinates, nesting 1/2/2/3/3/4, innermost [x,y]); Decode(Encode g) must equal g on the "
+                   "guarded domain; unsupported/non-finite inputs must be errors. DIFF verdicts: every result is compared with the model.",
 }
